@@ -187,6 +187,64 @@ EXCEPTIONS.update(c15.EXCEPTIONS)
 EXCEPTIONS.update(c18.EXCEPTIONS)
 
 
+def check_rrl_question_lemma(R, F):
+    """Rrl::process_response unwraps context.question for category NoError.  Lemma (DESIGN §3): a response that is subject
+    to RRL (send_response, UDP, opcode QUERY) and whose FULL extended RCODE is NOERROR has a question.  Premises checked:
+    (p1) the unwrap is control-dependent on `category == NoError` and the category is Category::from(the response's
+    extended RCODE) -- the 12-bit code, not the 4-bit header field, so BADVERS/BADKEY-style codes whose low nibble is 0
+    are not NoError; Category::from maps only 0 to NoError;
+    (p2) the whole key computation is dominated by subject_to_rrl;
+    (p3) in handle_message_with_context every return reachable after `question = None` has passed a call that sets a
+    non-zero RCODE (set_rcode(const != 0), set_extended_rcode, the TSIG error helpers) or handle_query (which answers
+    FORMERR when there is no question), or clears send_response.
+    Residual assumption (stated in the evidence): a response truncated by set_tsig_or_truncate after a *successful* TSIG
+    verification keeps RCODE NOERROR; it always has a question, because a TSIG RR fits beside an empty question section."""
+    pr = F.fn('server::rrl::Rrl::process_response')
+    uw = [b for b, kind, d in panics.sites(pr) if kind == 'unwrap' and 'question' in paths.show_operand(pr, pr.blocks[b]['term']['args'][0])]
+    ok1 = len(uw) == 1
+    d1 = 'expected one question.unwrap() in process_response, found %d' % len(uw)
+    if ok1:
+        g = paths.dom_guards(pr, uw[0])
+        cat_guard = [x for x in g if re.match(r'^Category::eq\(T::into\(Writer::extended_rcode\(arg2\.response\)\),Category::NoError\{?\}?\) not in \[0\]$', x)]
+        rrl_guard = [x for x in g if re.match(r'^rrl::subject_to_rrl\(arg2\) not in \[0\]$', x)]
+        cf = F.maybe('<server::rrl::Category as std::convert::From<message::rcode::ExtendedRcode>>::from')
+        only0 = False
+        if cf is not None:
+            noerr = [bb for bb, blk in enumerate(cf.blocks) if not blk['cleanup'] for st in blk['stmts'] if st['k'] == 'assign' and st['rv']['k'] == 'agg' and st['rv']['def'].endswith('Category::NoError')]
+            only0 = len(noerr) == 1 and any(re.match(r'^arg1\.0 in \[0\]$', x) for x in paths.direct_guards(cf, noerr[0]))
+        ok1 = bool(cat_guard) and bool(rrl_guard) and only0
+        d1 = 'unwrap under category == NoError: %s (guards %s); under subject_to_rrl: %s; Category::from maps only 0 to NoError: %s' % (bool(cat_guard), [x[:90] for x in g][-3:], bool(rrl_guard), only0)
+    R.require(ok1, 'rrl-question', 'server::rrl::Rrl::process_response|noerror-only-and-full-rcode', pr.where(uw[0]) if uw else pr.where(), d1, 'the RRL question lemma does not hold: ' + d1)
+    hm = F.fn(HMWC)
+    # blocks that store None into context.question
+    none_b = [b for b, blk in enumerate(hm.blocks) if not blk['cleanup'] for st in blk['stmts'] if st['k'] == 'assign' and st['rv']['k'] == 'agg' and st['rv']['def'].endswith('Option::None') and not st['lhs']['p']]
+    starts = [b for b in none_b if re.search(r'Reader::qdcount\(arg2\.received\) in \[0\]', ' '.join(paths.direct_guards(hm, b)))]
+    def settles(b):
+        t = hm.blocks[b]['term']
+        if t['k'] != 'call':
+            # send_response = false
+            return any(st['k'] == 'assign' and st['lhs']['p'] and isinstance(st['lhs']['p'][-1], dict) and st['lhs']['p'][-1].get('n') == 'send_response' for st in hm.blocks[b]['stmts'])
+        n = callee_name(t)
+        if n == W + 'set_rcode':
+            return (const_int(t['args'][1]) or 0) != 0
+        if n == W + 'set_extended_rcode':
+            return True
+        return n in ('server::find_tsig_algorithm_or_write_error', 'server::find_tsig_key_or_write_error', 'server::verify_tsig_and_write_tsig_rr', HANDLE_QUERY)
+    ok3 = len(starts) == 1
+    d3 = 'expected one `question = None` arm under QDCOUNT == 0, found %d' % len(starts)
+    if ok3:
+        avoid = {b for b in range(len(hm.blocks)) if settles(b)}
+        p = hm.find_path(starts[0], lambda x: hm.blocks[x]['term']['k'] == 'ret', avoid=avoid)
+        ok3 = p is None
+        d3 = 'every return after `question = None` passes a non-zero RCODE, handle_query or send_response = false' if ok3 else 'a return is reachable with question == None and RCODE NOERROR: %s' % paths.fmt_path(hm, p)
+    R.require(ok3, 'rrl-question', HMWC + '|no-question-implies-error-or-dispatch', hm.where(starts[0]) if starts else hm.where(), d3, d3)
+    # validate_opt only yields non-zero codes (it feeds set_extended_rcode)
+    vo = F.fn('server::validate_opt')
+    codes = sorted({m.group(1) for blk in vo.blocks for st in blk['stmts'] if st['k'] == 'assign' and st['rv']['k'] == 'agg' and st['rv']['def'].endswith('Option::Some') for m in [re.search(r'ExtendedRcode\((\d+)_u16\)', paths.show_operand(vo, st['rv']['ops'][0]))] if m})
+    R.require(bool(codes) and '0' not in codes, 'rrl-question', 'server::validate_opt|only-error-codes', vo.where(), 'validate_opt yields only non-zero extended RCODEs %s' % codes, 'validate_opt can yield extended RCODE 0')
+    R.floor('rrl-question', 3)
+
+
 def check(R, F):
     S = e5.make_summary(F)
     reach = sorted(g for g in F.reachable_fns([HANDLE_MESSAGE]) if F.fns[g].crate == 'quandary')
@@ -214,6 +272,7 @@ def check(R, F):
             if re.match(r'^(Reader|PeekRr)::(read_|peek_|parse|skip_)|^Rdata::read', txt):
                 bad.append('%s: %s' % (fn.where(b), txt[:80]))
     R.require(not bad, 'error-discipline', 'server|no-unwrap-of-parse-results', '', 'no unwrap/expect is applied to the result of a reader or RDATA parsing operation in server::*', 'request parsing results are unwrapped: %s' % bad)
+    check_rrl_question_lemma(R, F)
     # census of the modules outside the claim
     class Census:
         def __init__(self): self.ok = 0; self.bad = 0; self.by = {}
